@@ -215,8 +215,13 @@ def main(tier):
     mism = validate_translator(run)
     if mism:
         run.inconclusive.append({'name': 'translator-validation', 'status': INCONCLUSIVE, 'error': str(mism[:2])[:600]})
-    second = 'cvc5' if tier == 'thorough' else None
-    specs = [('props.C01', 'ob_sig', dict(p, second=second)) for p in plan(tier)]
+    def second_for(p):
+        # cross-check with a second solver where it is affordable: cvc5 up to total length 6, the older z3 binary up to 8
+        if tier != 'thorough':
+            return None
+        tot = sum(p['lens'])
+        return 'cvc5' if tot <= 6 else ('z3bin' if tot <= 8 else None)
+    specs = [('props.C01', 'ob_sig', dict(p, second=second_for(p))) for p in plan(tier)]
     specs.sort(key=lambda s: -(sum(s[2]['lens']) * 10 + s[2]['k']))
     results = run_pool(specs, budget_s=3000 if tier == 'thorough' else 900)
     run.add_results(results, rung=tier)
